@@ -80,11 +80,17 @@ def explore_only() -> Dict[str, List[Dict[str, Any]]]:
                                     dict(ep("B", "A", 0, False, c, r, r, r), api="structured-running-list")],
         "structured-entry-points": [dict(ep("A", "B", 0, False, c, s("a1"), ["recvnb", None]), api="structured"),
                                     dict(ep("B", "A", 0, False, c, r, ["recvnb", None]), api="structured")],
+        # two storing callback sockets in one process: each holds what ITS callback was handed
+        "two-storing-sockets": [ep("A", "B", 0, False, c, s("a1")), ep("B", "A", 0, "storage", c, ["stored", None]),
+                                ep("C", "D", 0, False, c, s("c1")), ep("D", "C", 0, "storage", c)],
         # a broadcast channel (one socket per remote behind one receive): per remote, messages come out in sending order
         "broadcast-receive": [dict(ep("A", "B", 0, False, ["bconnect", None], ["brecv", None], ["brecv", None], ["brecv", None]), remotes=["B", "C"]),
                               ep("B", "A", 0, False, c, s("b1")), ep("C", "A", 0, False, c, s("c1"), s("c2"))],
     }
 
+
+# scenarios with four threads: a bounded depth-first sample of the schedules instead of all of them
+SAMPLED = {"two-storing-sockets": 2500}
 
 PHASED = {
     # a message that was never received, the package's reset, then new sockets with the same keys
@@ -186,7 +192,7 @@ def run(prop: str, tier: str) -> int:
                 V.add("model-violates-" + inv, {"scenario": name, "callbacks_first": cbf},
                       f"Hub.tla (statement order of the working tree: callbacks {'before' if cbf else 'after'} becoming visible) violates {inv} in scenario {name}")
         depth, nodes = (120, 60000) if tier == "quick" else (160, 400000)
-        jobs = [(n, s, depth, nodes) for n, s in S.items()] + [(n, s, depth, 400) for n, s in PHASED.items()] + [(n, s, depth, nodes) for n, s in explore_only().items()]     # (280 nodes suffice when reset works; without it no two runs are alike)
+        jobs = [(n, s, depth, nodes) for n, s in S.items()] + [(n, s, depth, 400) for n, s in PHASED.items()] + [(n, s, depth, (nodes if n not in SAMPLED else SAMPLED[n] * (1 if tier == "quick" else 8))) for n, s in explore_only().items()]     # (280 nodes suffice when reset works; without it no two runs are alike)
         # (fresh interpreters, not forks of this multi-threaded process: a forked child can inherit a lock that a thread of
         #  the parent held at the moment of the fork)
         import multiprocessing
@@ -196,7 +202,8 @@ def run(prop: str, tier: str) -> int:
         for name, rs, st in res:
             stats[name] = st
             if st["truncated"]:
-                V.notes.append(f"exploration of {name} truncated at {nodes} nodes")
+                if name not in SAMPLED:
+                    V.notes.append(f"exploration of {name} truncated at {nodes} nodes")
             rows += rs
         for i, r_ in enumerate(rows, start=1):
             r_["id"] = i
@@ -270,7 +277,8 @@ def run(prop: str, tier: str) -> int:
             "rule": "evaluation = one schedule prefix executed on real threads under the statement-level scheduler; trace = API history of a distinct reachable outcome (terminal or depth-bounded), validated by TLC against HubAbs with linearization points chosen by TLC; non-trivial = >= 6 API events",
             "samples": [{"scenario": rows[0]["scenario"], "schedule": rows[0]["schedule"], "events": rows[0]["events"][:12]}],
             "real_states_per_scenario": stats, "preemption_points": sorted(f"{k[0]}:{v[:60]}" for k, v in lines.items()),
-            "selftest": "history with a corrupted recv result rejected", "exhaustive": not any(s["truncated"] for s in stats.values()),
+            "selftest": "history with a corrupted recv result rejected", "exhaustive": not any(s["truncated"] for n_, s in stats.items() if n_ not in SAMPLED),
+            "sampled_scenarios": {n_: {"nodes": stats[n_]["nodes"], "all_schedules": not stats[n_]["truncated"]} for n_ in SAMPLED if n_ in stats},
             "checker_cmd": res2.cmd,
         }
         return V.finish("model_checking", cov, ASSUME)
